@@ -48,6 +48,13 @@ struct RcDraw : Draw {
 
 using namespace vf;
 
+static std::string failure_class(const std::string &msg) {
+  std::string c;
+  for (char ch : msg) { if (ch == ':' || (ch >= '0' && ch <= '9') || ch == '(' || ch == '[') break; c += ch; }
+  if (c.size() > 60) c.resize(60);
+  return c;
+}
+
 static std::string arg_of(int argc, char **argv, const char *name, const char *def) {
   for (int i = 1; i + 1 < argc; i++) if (!strcmp(argv[i], name)) return argv[i + 1];
   return def;
@@ -74,6 +81,7 @@ int main(int argc, char **argv) {
   int emit_count = atoi(arg_of(argc, argv, "--count", "50").c_str());
   double scale = atof(arg_of(argc, argv, "--scale", "1").c_str());
   int shrink_budget = atoi(arg_of(argc, argv, "--shrink-budget", "1500").c_str());
+  double shrink_seconds = atof(arg_of(argc, argv, "--shrink-seconds", "60").c_str());
   mkdir(replay_dir.c_str(), 0755);
   if (!emit_dir.empty()) mkdir(emit_dir.c_str(), 0755);
 
@@ -103,7 +111,9 @@ int main(int argc, char **argv) {
 
     bool failing = false;        // a failing case has been seen: we are shrinking
     int shrink_evals = 0;
-    Case lastfail; std::string lastmsg;
+    auto fail_t0 = std::chrono::steady_clock::now();
+    Case lastfail; std::string lastmsg, failclass;
+    std::set<std::string> other_classes;
     int emitted = 0;
     auto body = [&]() {
       RcDraw d;
@@ -115,7 +125,10 @@ int main(int argc, char **argv) {
         return;
       }
       if (failing) {
-        if (++shrink_evals > shrink_budget) return;   // budget used: treat further candidates as passing
+        // shrink budget (count and wall time) used up: further candidates are treated as passing.  This bounds only
+        // how small the reported case gets, never the verdict.
+        double since = std::chrono::duration<double>(std::chrono::steady_clock::now() - fail_t0).count();
+        if (++shrink_evals > shrink_budget || since > shrink_seconds) return;
       }
       Outcome o = run_case(sub, c);
       if (!failing) st.record(c, o);
@@ -125,7 +138,11 @@ int main(int argc, char **argv) {
         fprintf(stderr, "INCONCLUSIVE %s/%s: %s (case saved to %s)\n", prop.id, sub.name, o.msg.c_str(), ip.c_str());
       }
       if (o.kind == Outcome::FAIL) {
-        failing = true;
+        // shrinking keeps to the failure class first seen (text before the first ':' / digit), so that a
+        // shrunk case reproduces the same defect instead of wandering into another one
+        std::string cls = failure_class(o.msg);
+        if (!failing) { failing = true; failclass = cls; fail_t0 = std::chrono::steady_clock::now(); }
+        else if (cls != failclass) { other_classes.insert(cls); return; }
         lastfail = c; lastmsg = o.msg;
         RC_FAIL(o.msg);
       }
@@ -146,6 +163,7 @@ int main(int argc, char **argv) {
       write_file(path, serialize(lastfail) + "# " + lastmsg + "\n");
       st.failures.push_back({path, lastmsg});
       printf("FAIL %s/%s replay=%s msg=%s\n", prop.id, sub.name, path.c_str(), lastmsg.c_str());
+      for (auto &oc : other_classes) fprintf(stderr, "[%s/%s] another failure class was met while shrinking: %s\n", prop.id, sub.name, oc.c_str());
     }
     if (!firstsub) out += ",";
     firstsub = false;
